@@ -19,7 +19,7 @@ ASSUMPTIONS = ['constraint denotations are evaluated by pv/core/cons.py, not by 
 SHARDS = {'quick': (16, 160), 'thorough': (16, 5000)}
 BUDGET = {'quick': 100, 'thorough': 1500}
 MIN_NONTRIVIAL = {'quick': 500, 'thorough': 5000}
-CFG = {'long_str_pct': 0, 'any': False, 'max_depth': 2, 'real10_pct': 0, 'defaults': True, 'time_kinds': False}
+CFG = {'long_str_pct': 0, 'any': True, 'max_depth': 2, 'real10_pct': 0, 'defaults': True, 'time_kinds': False}
 CONS_KINDS = ('INTEGER', 'OCTETSTRING', 'BITSTRING', 'SEQUENCEOF', 'SETOF', 'UTF8String', 'IA5String', 'PrintableString',
               'VisibleString', 'NumericString')
 
@@ -94,6 +94,36 @@ def decorate(d, T, v):
     return T
 
 
+def _lenient_header(b):
+    """Identifier and length octets read the way the decoder reads them (a long-form tag number below 31 is let through).
+    -> (class letter, number, length or None, position of the contents)"""
+    if not b:
+        raise x690.RefError('truncated', 'empty')
+    cls = 'UACP'[b[0] >> 6]
+    num, p = b[0] & 0x1f, 1
+    if num == 0x1f:
+        num = 0
+        while True:
+            if p >= len(b):
+                raise x690.RefError('truncated', 'identifier')
+            num = (num << 7) | (b[p] & 0x7f)
+            p += 1
+            if not b[p - 1] & 0x80:
+                break
+    if p >= len(b):
+        raise x690.RefError('truncated', 'length')
+    fo = b[p]
+    p += 1
+    if fo == 0x80:
+        return cls, num, None, p
+    if fo < 0x80:
+        return cls, num, fo, p
+    n = fo & 0x7f
+    if p + n > len(b):
+        raise x690.RefError('truncated', 'length octets')
+    return cls, num, int.from_bytes(b[p:p + n], 'big'), p + n
+
+
 def check_cons(T, v, path=''):
     """-> list of violated constraints (path, description) under the independent evaluator."""
     out = []
@@ -101,6 +131,18 @@ def check_cons(T, v, path=''):
     c = T.get('cons')
     if c is not None and not cons.admits(c, k, v):
         out.append('%s: %s value %s violates %s' % (path or '.', k, absval.short(v, 60), ir.jdump(c)[:120]))
+    if k == 'ANY' and isinstance(v, (bytes, bytearray)) and not T.get('tags'):
+        # an untagged ANY stands for one encoding of some value: one identifier that is not [UNIVERSAL 0] (the end-of-octets
+        # marker is not a value), and a definite length that spans exactly what is held. (What lies inside a constructed
+        # encoding is not the decoder's business: ANY is opaque.)
+        try:
+            cls, num, ln, pos = _lenient_header(bytes(v))
+            if cls == 'U' and num == 0:
+                out.append('%s: ANY holds %s - the end-of-octets marker is not a value' % (path or '.', bytes(v).hex()[:40]))
+            elif ln is not None and pos + ln != len(v):
+                out.append('%s: ANY holds %s, which is not exactly one encoding' % (path or '.', bytes(v).hex()[:40]))
+        except x690.RefError as r:
+            out.append('%s: ANY holds %s, which does not start with a complete header (%s)' % (path or '.', bytes(v).hex()[:40], r.kind))
     if k in ir.RECORD_KINDS:
         for cmp_ in T['comps']:
             if cmp_['name'] in v:
@@ -209,6 +251,10 @@ def structural(d, T, v, enc):
     out.append(('member-removed', rebuild(kids[:i] + kids[i + 1:])))
     if len(kids) >= 2:
         out.append(('members-swapped', rebuild(kids[:i] + kids[i + 1:] + [kids[i]])))
+    # the identifier of one member replaced by [UNIVERSAL 0] (what an end-of-octets marker starts with), length and contents kept
+    j = d.int(0, len(kids) - 1)
+    if kids[j][0] & 0x1f != 0x1f:
+        out.append(('tag-zeroed', rebuild(kids[:j] + [b'\x00' + kids[j][1:]] + kids[j + 1:])))
     return out
 
 
@@ -256,6 +302,22 @@ def run_case(case, col=None):
             if not d2.ok:
                 F(sub, 'fixpoint', 'decode(encode(result)) fails: %s | input=%s' % (d2.brief(), b.hex()[:120]), d2.sig)
                 continue
+            free_form = any(t['k'] in ir.RECORD_KINDS and not t['comps'] for t in fz.type_nodes(T))
+            # (a record type declared without components is the library's free-form container: it takes members of any type)
+            if not fz.explicit_over_nonindef_prim(T, r) and not fz.tagged_any_present(T, r) and not free_form:
+                # the indefinite-length form of the same result reads back as well (outside the region of known finding F01)
+                e3 = lib.encode('BER', d.value, defMode=False)
+                d3 = lib.decode('BER', e3.value, sch) if e3.ok else None
+                if not e3.ok:
+                    F(sub, 're-encode', 'accepted, but encode(result, defMode=False) fails: %s | input=%s' % (e3.brief(), b.hex()[:120]), e3.sig)
+                elif not d3.ok or d3.rest != b'':
+                    F(sub, 'fixpoint', 'decode(encode(result, defMode=False)) fails: %s | input=%s' % (d3.brief(), b.hex()[:120]), d3.sig)
+                else:
+                    try:
+                        if not ir.same(T, r, absval.absval(T, d3.value, sch)):
+                            F(sub, 'fixpoint', 'decode(encode(result, defMode=False)) differs from the result | input=%s' % b.hex()[:100])
+                    except Exception as ex:
+                        F(sub, 'fixpoint', 'decode(encode(result, defMode=False)) is ill-formed: %s | input=%s' % (ex, b.hex()[:120]))
             try:
                 r2 = absval.absval(T, d2.value, sch)
             except Exception as ex:
